@@ -82,7 +82,7 @@ pub fn c10_eval(s: &str, acc: &mut Acc) {
     acc.nontrivial(s.as_bytes());
     let r = guarded(|| -> Result<(), String> {
         let b = TomlStringBuilder::new(s);
-        let mut offer = |style: &'static str, tok: Option<String>, acc: &mut Acc| -> Result<(), String> {
+        let offer = |style: &'static str, tok: Option<String>, acc: &mut Acc| -> Result<(), String> {
             match tok {
                 Some(t) => {
                     acc.bump(style);
@@ -102,7 +102,7 @@ pub fn c10_eval(s: &str, acc: &mut Acc) {
         offer("value:toml_edit::Value::from", Some(Value::from(s).to_string()), acc)?;
         offer("value:toml::Value::String", Some(toml::Value::String(s.to_string()).to_string()), acc)?;
         let kb = TomlKeyBuilder::new(s);
-        let mut koffer = |style: &'static str, tok: Option<String>, acc: &mut Acc| -> Result<(), String> {
+        let koffer = |style: &'static str, tok: Option<String>, acc: &mut Acc| -> Result<(), String> {
             match tok {
                 Some(t) => {
                     acc.bump(style);
